@@ -666,6 +666,23 @@ impl<'a> Lifter<'a> {
                         }
                     }
                 }
+                if name == "__vx_havoc" {
+                    // (synthetic, closure-as-function lifts) a variable the closure assigns: its value at closure entry
+                    // is whatever earlier invocations left there - an uninterpreted function of the inputs (L6)
+                    let var = m.mac.tokens.to_string().trim().to_string();
+                    let ty = self.lookup(&var).ok_or(format!("havoc of unbound `{var}`"))?;
+                    let hname = format!("{}__entry_{var}", self.fn_name);
+                    let decl = format!(
+                        "pub uninterp spec fn {hname}({}) -> {ty};",
+                        self.params.iter().map(|(n, t)| format!("{n}: {t}")).collect::<Vec<_>>().join(", ")
+                    );
+                    if !self.havocs.contains(&decl) {
+                        self.havocs.push(decl);
+                    }
+                    self.note("L6", e.span(), &format!("`{var}` is assigned by the closure: its value at closure entry is havoc'd"));
+                    let plist: Vec<String> = self.params.iter().map(|(n, _)| n.clone()).collect();
+                    return Ok(v(format!("{hname}({})", plist.join(", ")), &ty));
+                }
                 if name == "unreachable" {
                     return Ok(v("arbitrary()", "?"));
                 }
@@ -2310,7 +2327,94 @@ pub fn lift_fn(ctx: &mut Ctx, blk: &Block) -> Result<(String, Value), String> {
             }
         }
     }
+    // L25 closure-as-function: `closure=<local>:<param>:<type> ret=<type>` lifts the body of the closure bound to
+    // <local> as a function of the enclosing function's inputs and the closure's parameter: the statements before the
+    // binding are kept, variables the closure assigns are havoc'd at its entry (earlier invocations)
+    let mut synth_block: Option<syn::Block> = None;
+    if let Some(spec) = blk.opt("closure") {
+        let parts: Vec<&str> = spec.split(':').collect();
+        if parts.len() != 3 {
+            return Err("lift: closure=<local>:<param>:<type>".into());
+        }
+        let (cname, pname, pty) = (parts[0], parts[1], parts[2]);
+        let mut found = None;
+        for (k, st) in f.block.stmts.iter().enumerate() {
+            if let syn::Stmt::Local(l) = st {
+                if let (syn::Pat::Ident(pi), Some(init)) = (&l.pat, &l.init) {
+                    if pi.ident == cname {
+                        if let syn::Expr::Closure(cl) = &*init.expr {
+                            found = Some((k, cl.clone()));
+                        }
+                    }
+                }
+            }
+        }
+        let Some((k, cl)) = found else { return Err(format!("lost anchor: no closure bound to `{cname}` in {path}")) };
+        let cl_param = match cl.inputs.first() {
+            Some(syn::Pat::Ident(i)) if cl.inputs.len() == 1 => i.ident.to_string(),
+            Some(syn::Pat::Type(t)) if cl.inputs.len() == 1 => t.pat.to_token_stream().to_string(),
+            _ => return Err("construct outside rule list (lift): closure arity / pattern".into()),
+        };
+        if cl_param != pname {
+            return Err(format!("lost anchor: the closure bound to `{cname}` takes `{cl_param}`, not `{pname}`"));
+        }
+        let body_blk: syn::Block = match &*cl.body {
+            syn::Expr::Block(b) => b.block.clone(),
+            other => syn::Block { brace_token: Default::default(), stmts: vec![syn::Stmt::Expr(other.clone(), None)] },
+        };
+        // backward slice of the statements before the binding: only what the closure body (transitively) mentions
+        let mut stmts: Vec<syn::Stmt> = {
+            struct Ids(Vec<String>);
+            impl<'ast> syn::visit::Visit<'ast> for Ids {
+                fn visit_ident(&mut self, i: &'ast proc_macro2::Ident) {
+                    self.0.push(i.to_string());
+                }
+            }
+            let mut needed = Ids(vec![]);
+            syn::visit::Visit::visit_block(&mut needed, &body_blk);
+            let mut keep: Vec<syn::Stmt> = Vec::new();
+            for st in f.block.stmts[..k].iter().rev() {
+                if let syn::Stmt::Local(l) = st {
+                    let mut bound = Ids(vec![]);
+                    syn::visit::Visit::visit_pat(&mut bound, &l.pat);
+                    if bound.0.iter().any(|b| needed.0.contains(b)) {
+                        if let Some(init) = &l.init {
+                            syn::visit::Visit::visit_expr(&mut needed, &init.expr);
+                        }
+                        keep.push(st.clone());
+                    }
+                }
+            }
+            keep.reverse();
+            keep
+        };
+        // names bound before the closure
+        let mut before: Vec<String> = params.iter().map(|(n, _)| n.clone()).collect();
+        {
+            struct PB<'z>(&'z mut Vec<String>);
+            impl<'ast, 'z> syn::visit::Visit<'ast> for PB<'z> {
+                fn visit_pat_ident(&mut self, i: &'ast syn::PatIdent) {
+                    self.0.push(i.ident.to_string());
+                }
+                fn visit_expr_closure(&mut self, _: &'ast syn::ExprClosure) {}
+            }
+            for st in &stmts {
+                syn::visit::Visit::visit_stmt(&mut PB(&mut before), st);
+            }
+        }
+        for a in Lifter::assigned_vars(&body_blk) {
+            if before.contains(&a) {
+                let st: syn::Stmt = syn::parse_str(&format!("let {a} = __vx_havoc!({a});")).map_err(|e| e.to_string())?;
+                stmts.push(st);
+            }
+        }
+        stmts.extend(body_blk.stmts.iter().cloned());
+        synth_block = Some(syn::Block { brace_token: Default::default(), stmts });
+        params.push((pname.to_string(), pty.to_string()));
+    }
+    let fblock: &syn::Block = synth_block.as_ref().unwrap_or(f.block);
     let ret_ty = match &f.sig.output {
+        _ if blk.opt("closure").is_some() => blk.opt("ret").ok_or("lift: closure= needs ret=<type>")?.to_string(),
         syn::ReturnType::Default => match &out_param {
             Some(p) => params.iter().find(|(n, _)| n == p).unwrap().1.clone(),
             None => return Err("construct outside rule list (lift): function returns () and has no &mut parameter".into()),
@@ -2345,14 +2449,14 @@ pub fn lift_fn(ctx: &mut Ctx, blk: &Block) -> Result<(String, Value), String> {
             }
         }
         let mut b = B(vec![]);
-        syn::visit::Visit::visit_block(&mut b, f.block);
+        syn::visit::Visit::visit_block(&mut b, fblock);
         b.0
     };
     let mut text = String::new();
     let mut unbound_notes: Vec<(String, usize, String)> = Vec::new();
     // L17d: `@ret` names the identifier the function returns (`x` or `Ok(x)` in tail position), so that an
     // observable follows the value that leaves the function and not the name of a local
-    let ret_ident: Option<String> = match f.block.stmts.last() {
+    let ret_ident: Option<String> = match fblock.stmts.last() {
         Some(syn::Stmt::Expr(e, None)) => {
             let mut e = e;
             if let syn::Expr::Call(c) = e {
@@ -2417,9 +2521,9 @@ pub fn lift_fn(ctx: &mut Ctx, blk: &Block) -> Result<(String, Value), String> {
                     }
                 }
                 let mut c = C(fname, false);
-                syn::visit::Visit::visit_block(&mut c, f.block);
+                syn::visit::Visit::visit_block(&mut c, fblock);
                 let mut mm = M(&c.0, false);
-                syn::visit::Visit::visit_block(&mut mm, f.block);
+                syn::visit::Visit::visit_block(&mut mm, fblock);
                 c.1 = c.1 || mm.1;
                 c.1
             } else {
@@ -2477,7 +2581,7 @@ pub fn lift_fn(ctx: &mut Ctx, blk: &Block) -> Result<(String, Value), String> {
             rebound_params: vec![],
             in_value: 0,
         };
-        let body = l.stmts_with_cont(&f.block.stmts, None)?;
+        let body = l.stmts_with_cont(&fblock.stmts, None)?;
         let rty = if observe.is_some() || ret_ty.contains('?') { body.ty.clone() } else { ret_ty.clone() };
         if observe.is_none() && body.ty != ret_ty && !body.ty.contains('?') && !ret_ty.contains('?') {
             return Err(format!("construct outside rule list (lift): body of {path} has type {} but the signature says {}", body.ty, ret_ty));
